@@ -94,6 +94,7 @@ macro_rules! c03_beta {
     };
 }
 //@ id: c03_beta_f64
+//@ besteffort: yes
 //@ prop: C03
 //@ tier: thorough
 //@ cap: 3600
@@ -102,6 +103,7 @@ macro_rules! c03_beta {
 //@ assumes: libm::{log,exp,sqrt} by contract
 c03_beta!(c03_beta_f64, f64, 1e-3);
 //@ id: c03_beta_f32
+//@ besteffort: yes
 //@ prop: C03
 //@ tier: thorough
 //@ cap: 1800
